@@ -390,6 +390,7 @@ class Contract:
         self.verify = getattr(cls, "verify", True)
         self.imports = getattr(cls, "imports", "")
         self.native_call = getattr(cls, "native_call", None)   # source expr for calling the real function
+        self.axioms = dict(getattr(cls, "axioms", {}) or {})    # name -> statement of a trusted (unproved) axiom
         self.lemmas = dict(getattr(cls, "lemmas", {}) or {})    # name -> ("v1 v2 ...", universally valid formula)
 
     # evaluation of a clause -------------------------------------------------
@@ -497,6 +498,8 @@ class Contract:
         V.SAFETY[0] = False
         try:
             return interp.eval(node, env)
+        except Unsupported as e:
+            raise Unsupported(f"{e} [while evaluating clause of {self.key}: {text[:120]}]")
         finally:
             interp.spec -= 1
             V.SAFETY[0] = old
@@ -533,10 +536,19 @@ class Contract:
                     c = z3.Real(V.fresh_name("cv_" + v)) if kind == "real" else z3.Int(V.fresh_name("cv_" + v))
                     consts.append(c)
                     extra[v] = Sym(c)
+                n0 = len(path.conds)
                 a = self.eval_clause(interp, spec["assume"], bound, extra) if spec.get("assume") else True
                 sh = self.eval_clause(interp, spec["show"], bound, extra)
                 body = V.implies(a, sh)
                 bt = V._bool_term(body) if is_sym(body) else z3.BoolVal(bool(body))
+                # instance axioms assumed while evaluating (they mention the bound constants) go inside the quantifier
+                from . import loops as _loops
+                local, keep = [], []
+                for c in path.conds[n0:]:
+                    (local if any(_loops._term_mentions(c, v) for v in consts) else keep).append(c)
+                path.conds[n0:] = keep
+                if local:
+                    bt = z3.And(*(local + [bt]))
                 path.conds.append(z3.ForAll(consts, bt) if consts else bt)
                 continue
             path.assume(self.eval_clause(interp, self.ensures[n], bound, {"result": res}))
